@@ -128,8 +128,8 @@ _SAFE_METHODS = {
     frozenset: {"difference", "union", "intersection", "issubset", "issuperset", "symmetric_difference"},
     dict: {"get", "items", "keys", "values", "pop", "setdefault", "update", "copy"},
     tuple: {"index", "count"},
-    str: {"startswith", "endswith", "split", "join", "strip", "lower", "upper", "encode", "format", "replace", "lstrip", "rstrip"},
-    bytes: {"startswith", "endswith", "split", "join", "strip", "decode", "replace", "lstrip", "rstrip", "find", "index", "count", "partition", "rpartition"},
+    str: {"startswith", "endswith", "split", "join", "strip", "lower", "upper", "encode", "format", "replace", "lstrip", "rstrip", "find", "rfind", "index", "rindex", "count", "partition", "rpartition", "rsplit", "splitlines", "isdigit"},
+    bytes: {"startswith", "endswith", "split", "join", "strip", "decode", "replace", "lstrip", "rstrip", "find", "rfind", "index", "rindex", "count", "partition", "rpartition", "rsplit", "splitlines"},
     bytearray: {"append", "extend"},
     re.Pattern: {"match", "fullmatch", "search", "sub", "split", "findall"},
     re.Match: {"end", "start", "group", "groups", "span"},
